@@ -19,6 +19,7 @@ import (
 	"fmt"
 	"io"
 	"sort"
+	"strings"
 	"testing"
 	"time"
 
@@ -32,6 +33,7 @@ import (
 	"github.com/go-git/go-git/v6/verifsim/gen"
 	"github.com/go-git/go-git/v6/verifsim/hooks"
 	"github.com/go-git/go-git/v6/verifsim/porc"
+	"github.com/go-git/go-git/v6/verifsim/simfs"
 )
 
 type GC struct {
@@ -45,6 +47,12 @@ type Plan struct {
 	Repack   bool        `json:"repack"`
 	Steps    []porc.Step `json:"steps"`
 	GCs      []GC        `json:"gcs"`
+	// Promisor marks every pack present before the GC as a promisor pack (the
+	// repository then counts as a partial clone and the walk tolerates absent blobs).
+	Promisor bool `json:"promisor"`
+	// Fault, when set, is one transient I/O error during the first GC. The GC
+	// may then fail; it still must not delete anything protected.
+	Fault *simfs.Fault `json:"fault,omitempty"`
 }
 
 var weights = map[string]int{"edit": 6, "add": 7, "commit": 3, "reset": 5, "checkout": 3, "tick": 3, "rm": 1, "gcrepack": 2, "delbranch": 2, "restore": 1}
@@ -82,6 +90,11 @@ func genPlan(r *core.Rand, tier string) any {
 			g.AgeSec = r.Pick2(1, 30, 3600)
 		}
 		p.GCs = append(p.GCs, g)
+	}
+	p.Promisor = r.Chance(1, 4)
+	if r.Chance(1, 4) {
+		cls := []simfs.OpClass{simfs.OpOpen, simfs.OpOpen, simfs.OpRead, simfs.OpRead, simfs.OpStat, simfs.OpReadDir, simfs.OpCreate, simfs.OpWrite, simfs.OpRename, simfs.OpRemove, simfs.OpClose}
+		p.Fault = &simfs.Fault{Class: cls[r.Intn(len(cls))], Nth: r.Range(1, 40), PathSub: "objects", Errno: r.Pick("EIO", "EMFILE", "EACCES", "ENOSPC")}
 	}
 	return p
 }
@@ -261,6 +274,18 @@ func execPlan(t *testing.T, pa any) (out core.Outcome) {
 		now := d.Now()
 		var gerr error
 		kind := g.Kind
+		if p.Promisor && gi == 0 {
+			for _, e := range d.List("/w/.git/objects/pack") {
+				if e.Kind == "file" && strings.HasSuffix(e.Path, ".pack") {
+					d.WriteFile(strings.TrimSuffix(e.Path, ".pack")+".promisor", nil, 0o644)
+					out.Probe("promisor-pack")
+				}
+			}
+		}
+		if p.Fault != nil && gi == 0 {
+			d.ResetCounters()
+			d.SetFaults([]simfs.Fault{*p.Fault})
+		}
 		switch g.Kind {
 		case "repack":
 			cfg := &git.RepackConfig{UseRefDeltas: g.RefDelta}
@@ -277,6 +302,23 @@ func execPlan(t *testing.T, pa any) (out core.Outcome) {
 				kind = "prune-aged"
 			}
 			gerr = w.Env.Repo.Prune(o)
+		}
+		faulted := ""
+		if p.Fault != nil && gi == 0 {
+			d.SetFaults(nil)
+			for k, v := range d.FaultsFired {
+				if v > 0 {
+					faulted = "|fault:" + string(p.Fault.Class)
+					if out.Faults == nil {
+						out.Faults = map[string]int{}
+					}
+					out.Faults[k] += v
+				}
+			}
+			if faulted != "" {
+				out.NonTrivial = true
+				kind += faulted
+			}
 		}
 		trace = append(trace, fmt.Sprintf("gc %s: %s (protected %d, index-only %d)", kind, porc.ErrKind(gerr), len(prot), nIndexOnly))
 		if gerr != nil {
@@ -338,16 +380,16 @@ func TestCheck(t *testing.T) {
 	core.Main(t, core.Check{
 		ID:    "C22",
 		Level: "exploration",
-		Rule: "plan = generated repository (some objects packed, some loose) x history of 2-9 steps (edit, add, commit, reset in 5 modes, checkout incl. detached HEAD, rm, restore, branch deletion, mid-history repack, clock ticks of 20-80 s) x 1-2 GC operations (Prune / RepackObjects with ofs or ref deltas, with or without an age limit of 1 s / 30 s / 1 h relative to the simulated clock); " +
+		Rule: "plan = generated repository (some objects packed, some loose) x history of 2-9 steps (edit, add, commit, reset in 5 modes, checkout incl. detached HEAD, rm, restore, branch deletion, mid-history repack, clock ticks of 20-80 s) x promisor marking x optional single I/O fault (open/read/stat/readdir/create/write/rename/remove/close under objects/, EIO/EMFILE/EACCES/ENOSPC) x 1-2 GC operations (Prune / RepackObjects with ofs or ref deltas, with or without an age limit of 1 s / 30 s / 1 h relative to the simulated clock); " +
 			"non-trivial = at GC time at least one object is protected only by the index; distinct = distinct plan JSON",
 		Assumptions: []string{"the protected set is computed with go-git's own readers on the pre-GC state (objects already missing then are not this property's concern)",
-			"shallow roots and promisor packs are not generated", "histories containing symlinks make Prune/RepackObjects fail with 'unknown object' (object walker has no blob case for non-regular entries); such GCs delete nothing and are counted as gc-error"},
+			"shallow roots are not generated; in a quarter of the plans every pack is marked as a promisor pack (nothing is actually withheld)", "a quarter of the plans inject one transient I/O error into the first GC: the GC may then fail, the protected set must still be readable afterwards (with the fault gone)", "histories containing symlinks make Prune/RepackObjects fail with 'unknown object' (object walker has no blob case for non-regular entries); such GCs delete nothing and are counted as gc-error"},
 		Real:           []string{"Repository.Prune", "Repository.RepackObjects", "objectWalker", "dotgit.DeleteOldObjectPackAndIndex", "ObjectStorage.DeleteLooseObject"},
 		Stub:           []string{"disk (simfs)", "clock (simfs manual clock; loose-object and pack mtimes)"},
 		Runs:           map[string]int{"quick": 12000, "thorough": 400000},
 		NewPlan:        func() any { return &Plan{} },
 		Gen:            genPlan,
 		Exec:           execPlan,
-		RequiredProbes: []string{"index-only-object-loose", "index-only-object-packed", "gc-ok:prune", "gc-ok:repack", "gc-ok:prune-aged", "gc-ok:repack-aged"},
+		RequiredProbes: []string{"promisor-pack", "index-only-object-loose", "index-only-object-packed", "gc-ok:prune", "gc-ok:repack", "gc-ok:prune-aged", "gc-ok:repack-aged"},
 	})
 }
